@@ -600,7 +600,9 @@ impl Sim {
         self.cur_ch = ch;
         if ch.is_none() {
             self.ledger.ep_tx(node, dst, &buf[..size]);
-            if !self.ledger.is_validated(node, &dst) {
+            // cumulative per-address accounting only in the scenarios built around the ledger (`ledger.on`): elsewhere
+            // several connections share an address, or addresses become valid by path validation the ledger does not follow
+            if self.ledger.on && self.check_amp && !self.ledger.is_validated(node, &dst) {
                 // cumulative: everything the endpoint itself ever sent to the address against everything it received from it
                 let sent = *self.nodes[node].sent_to.get(&dst).unwrap_or(&0);
                 let recvd = *self.nodes[node].recv_from.get(&dst).unwrap_or(&0);
